@@ -1,7 +1,7 @@
 (* C28 - refutations for today's tab list / encoder, examples, and the link between the judge's
    decidable comparison and entry-for-entry equality. *)
 From Coq Require Import List NArith ZArith Bool Lia String.
-From Verif Require Import Base.Hex Base.Assoc Model.TabList Proofs.C28_Struct.
+From Verif Require Import Base.Hex Base.Assoc Model.TabList Proofs.C28_Struct Proofs.C28_Wire.
 Import ListNotations.
 Open Scope string_scope.
 Open Scope N_scope.
@@ -96,4 +96,25 @@ Lemma demo_wf : Forall (wf_top 765) demo_history.
 Proof.
   repeat constructor. intros a H L. cbv in H.
   repeat (destruct H as [<-|H]; [try reflexivity; exfalso; revert L; vm_compute; intros X; apply X; reflexivity|]). destruct H.
+Qed.
+
+Lemma demo_wf_acts : wf_acts 765 [true; true; true; true; true; true; false; false].
+Proof.
+  intros a H L. cbv in H.
+  repeat (destruct H as [<-|H]; [try reflexivity; exfalso; revert L; vm_compute; intros X; apply X; reflexivity|]). destruct H.
+Qed.
+
+(* the premises of the byte-level theorem are met by the demo history (empty display-name table) *)
+Lemma demo_wf_hist : tbl_ok 765 [] /\ wf_hist 765 [] [] demo_history.
+Proof.
+  split; [constructor|]. unfold demo_history.
+  repeat match goal with
+  | |- wf_hist _ _ _ (_ :: _) => cbn [wf_hist]; split; [|split; [|]]
+  | |- wf_hist _ _ _ [] => exact I
+  end.
+  all: try exact I.
+  all: try (apply demo_wf_acts).
+  all: cbn [wf_op wf_top].
+  all: unfold wf_remove, wf_bentry, wf_attrs, wf_props, wf_prop, short, int32, id_ok, dn_ok, alice, bob_as_1.
+  all: repeat (split || constructor); try apply demo_wf_acts; cbn; try lia; try exact I.
 Qed.
